@@ -15,6 +15,8 @@ import PlasVerif.Driver.C13
 import PlasVerif.Driver.C14
 import PlasVerif.Driver.C06
 import PlasVerif.Driver.C05
+import PlasVerif.Driver.C12
+import PlasVerif.Driver.C17
 /-!
 Line-protocol driver: one request per line `<property> <stream> <payload…>`, one
 answer per line `<model output>\t<spec output or ->[\t<aux>]`.  Imports only `Model`,
@@ -42,6 +44,8 @@ def dispatch (line : String) : String :=
   | "C14" :: r => C14.handle r
   | "C06" :: r => C06.handle r
   | "C05" :: r => C05.handle r
+  | "C12" :: r => C12.handle r
+  | "C17" :: r => C17.handle r
   | _ => "bad-op"
 
 partial def loop (h : IO.FS.Stream) (out : IO.FS.Stream) : IO Unit := do
